@@ -61,11 +61,11 @@ def generate(ctx, rng):
             n += 1
             yield ("idport", did, port), {"mode": "broadcast", "auto": False,
                                           "hosts": [_host(rng, "10.1.0.%d" % (1 + n % 200), id=did, port=port)]}
-    for j in range(120 if quick else 1500):
+    for j in range(120 if quick else 7500):
         k = rng.randint(1, 4)
         hosts = [_host(rng, "10.2.%d.%d" % (j % 200, i + 1)) for i in range(k)]
         yield ("multi", j), {"mode": "broadcast", "auto": False, "hosts": hosts}
-    for j in range(120 if quick else 2500):
+    for j in range(120 if quick else 12500):
         h = _host(rng, "10.3.0.%d" % (1 + j % 200))
         yield ("single", j), {"mode": "single", "auto": False, "hosts": [h, _host(rng, "10.3.1.9")],
                               "target": [None, "midea-ac.lan", "AC-Livingroom", None][j % 4]}
@@ -103,19 +103,19 @@ def generate(ctx, rng):
                 yield ("suffix", j, version, t), {"mode": "broadcast", "auto": False,
                                                   "hosts": [_host(rng, "10.10.0.%d" % (1 + n % 200), suffix=suffix, version=version, type=t)]}
     # auto-connect to a device that accepts the TCP connection and never answers, with short listening windows
-    for j in range(12 if quick else 300):
+    for j in range(12 if quick else 1500):
         h = _host(rng, "10.11.0.%d" % (1 + j % 200), version=2, type=0xAC, port=6444, dups=1)
         yield ("auto-silent", j), {"mode": ["broadcast", "single"][j % 2], "auto": True, "hosts": [h], "timeout": [1, 2, 5][j % 3], "silent_tcp": True}
     # several discoveries in flight at the same time (an application looking for its configured devices in parallel)
-    for j in range(60 if quick else 2500):
+    for j in range(60 if quick else 12500):
         k = rng.randint(2, 4)
         hosts = [_host(rng, "10.8.%d.%d" % (j % 200, i + 1), dups=1) for i in range(k)]
         yield ("overlap", j), {"mode": "overlap", "auto": False, "hosts": hosts, "starts": [rng.choice([0.0, 0.0, 0.02, 0.3, 1.0]) for _ in range(k)],
                                "also_broadcast": j % 3 == 0}
-    for j in range(80 if quick else 2000):
+    for j in range(80 if quick else 10000):
         h = _host(rng, "10.4.0.%d" % (1 + j % 200), version=2, type=rng.choice([0xAC, 0xAC, 0xA1]), port=rng.choice([6444, 7000]))
         yield ("auto", j), {"mode": rng.choice(["broadcast", "single"]), "auto": True, "hosts": [h]}
-    for j in range(150 if quick else 70000):
+    for j in range(150 if quick else 350000):
         yield ("rnd", j), {"mode": "broadcast", "auto": False, "hosts": [_host(rng, "10.5.%d.%d" % (rng.randrange(250), rng.randrange(1, 250)))]}
 
 
